@@ -525,17 +525,18 @@ ob("C05.constructors", ["C05", "C04"], "chess-movegen", _FN + "c05_constructors"
 ob("C06.fen_cover", ["C06", "C05"], "chess-movegen", _FN + "c06_fen_cover", kind="cover", flags="full", timeout=1500, mem_gb=5, contract="vacuity guard: accepted text with Black to move and an invalid-turn error are both reachable")
 PROPERTY_META["C06"] = dict(
     level="model_checking",
-    explanation="Validation half: PROOF — Board::validate() on a fully symbolic board: Ok => each of the five playability clauses (one assertion per clause), playable => Ok (no over-rejection), error classification; has_kings; BoardBuilder::build; update_pin_info (foreach-loop proof). Parser totality half: BOUNDED — helper parsers on all short byte strings (complete for the bytes they inspect), parse_fen on all byte strings up to a length bound and on a valid placement followed by all short tails. Long garbage inside the placement field is not covered.",
-    assumptions=["parser totality is bounded by input length (stated per obligation); the placement loop's panic sites are File::from_u8(file).unwrap() (file <= 7 at loop head by the 0..=7 / 8 / 9.. match) and ranks.next().unwrap() (once) — argued, not proved for unbounded input",
-                 "untrusted entry points (chess-wasm new_game_from_fen, CLI FromStr) only call parse_fen(s.as_bytes())"],
-    level_note="validate/build/pin-info: proof; parse_fen totality: bounded model checking by input length (labelled per obligation)",
+    explanation="Validation half: PROOF — Board::validate() on a fully symbolic board: Ok => each of the five playability clauses (one assertion per clause), playable => Ok (no over-rejection), error classification; has_kings; BoardBuilder::build; update_pin_info (foreach-loop proof); is_legal_king_position (used by the 'side not to move not in check' clause) against the attacked-square spec. Parser totality half: BOUNDED — the five private helper parsers on ALL short byte strings (complete for the bytes they inspect); whole parse_fen only on ground strings: 16 malformed / truncated texts that must be rejected without a panic (every place where the text can stop, over-long ranks, bad letters, five-digit clocks), every value of one byte at six fixed tail offsets of a 27-byte text, and three accepted texts. Fully symbolic byte strings do not get through CBMC's symbolic execution of parse_fen even at length 3 (measured), so arbitrary garbage — in particular inside the placement field — is NOT covered.",
+    assumptions=["parser totality is decided only on the registered ground strings and single-byte windows; the placement loop's panic sites are File::from_u8(file).unwrap() (file <= 7 at loop head by the 0..=7 / 8 / 9.. match) and ranks.next().unwrap() (once) — argued, not proved for arbitrary input",
+                 "untrusted entry points (chess-wasm new_game_from_fen, CLI FromStr) only call parse_fen(s.as_bytes())",
+                 "validate()'s attacked-square test is used through its contract (C01.king_position)"],
+    level_note="validate / build / pin-info: proof; parse_fen totality: ground cases + single-byte windows + helper parsers (bounded, labelled per obligation)",
 )
 PROPERTY_META["C05"] = dict(
     level="model_checking",
-    explanation="BOUNDED families, each complete over its symbolic part: writer == canonical text for all values of the five trailing fields (fixed placement) and for one fully symbolic rank at a time; parser(canonical text) == position for all values of the five trailing fields and for one symbolic rank at a time (incl. hash field == from-scratch hash and cached sets == spec); field parsers as exact inverses of the field writers (complete); constructors agree (ground). The composition 'ranks are independent, fields are separated by one space and each field parser consumes exactly its field' is argued, not machine-checked.",
-    assumptions=["rank independence of writer (missing counter reset at every rank end) and parser (file counter reset) is by inspection; only one rank is symbolic per query",
-                 "clock values 0..9999 for the parse direction (the property's own range); writer proved for all 16-bit values"],
-    level_note="bounded model checking per family (labelled); field-level inverses complete; whole-string composition by stated argument",
+    explanation="GROUND round trips + field-level inverses (the symbolic per-rank / per-field splits planned in DESIGN section 5 do not get through CBMC, see DESIGN 11.4): for 23 canonical FENs chosen to hit every writer/parser branch (every one of the 16 castling subsets, e.p. square for either side to move, clocks of 1-4 digits, empty runs 1-8 at the start / middle / end of a rank incl. rank 1 and rank 8, every piece letter, a position in check with a pin): parse_fen(text) == Ok(b), Display(b) == text byte for byte, the independent spec writer applied to view(b) == text (b denotes exactly the described position), hash field == from-scratch hash, cached sets == spec, position playable. The private field parsers are exact inverses of the field writers on ALL short byte strings (complete). standard() / builder / parser agree field for field (ground). A change that only shows on a text shape outside this family is NOT detected (seeds X3-1 / X3-2 showed this before their shapes were added).",
+    assumptions=["whole-string behaviour is decided only on the ground family; composition of ranks and fields beyond it is by inspection",
+                 "clock values: the ground family covers 1-4 digit clocks; the helper parse_number is complete for all inputs"],
+    level_note="ground obligations (CBMC evaluates the real parser and writer on fixed texts) + complete field-level inverses; NOT a proof over all boards",
 )
 
 # =========================================================================== Verus spec-level lemmas (DESIGN 2.2)
